@@ -1474,6 +1474,35 @@ fn emit_target(ctx: &mut Ctx, unit: &Unit, t: &Target) -> Emitted {
             ));
         }
     }
+    // R17: every plain `let x = ..;` becomes `let mut x = ..;` (and by-value parameters `mut`): R7 lowers
+    // interior mutability (`&self` methods of files / locks / atomics) to `&mut self`, so a binding that the
+    // source never declares `mut` may be the receiver of a lowered `&mut` call. `mut` changes no behaviour.
+    {
+        struct LetMut;
+        impl VisitMut for LetMut {
+            fn visit_local_mut(&mut self, l: &mut syn::Local) {
+                fn mk(p: &mut syn::Pat) {
+                    match p {
+                        syn::Pat::Ident(pi) if pi.by_ref.is_none() && pi.subpat.is_none() => { pi.mutability = Some(Default::default()); }
+                        syn::Pat::Type(pt) => mk(&mut pt.pat),
+                        _ => {}
+                    }
+                }
+                mk(&mut l.pat);
+                visit_mut::visit_local_mut(self, l);
+            }
+        }
+        LetMut.visit_block_mut(&mut block);
+        if t.sig.is_none() {
+            for a in sig.inputs.iter_mut() {
+                if let syn::FnArg::Typed(pt) = a {
+                    if !matches!(&*pt.ty, syn::Type::Reference(_)) {
+                        if let syn::Pat::Ident(pi) = &mut *pt.pat { if pi.by_ref.is_none() { pi.mutability = Some(Default::default()); } }
+                    }
+                }
+            }
+        }
+    }
     if sig.asyncness.is_some() {
         lw.note("R1 async fn -> fn");
     }
